@@ -1,11 +1,187 @@
 package main
 
-// Loop invariants (contracts): filled in by contracts.go
-type LoopSpec struct {
-	Key string
-	Inv []string // invariant expressions (contract language)
+import (
+	"fmt"
+	"go/types"
+
+	"golang.org/x/tools/go/ssa"
+)
+
+// execLoopInvariant cuts a loop with its contract: the invariant is established on entry (side
+// obligation), assumed for arbitrary (havocked) loop state, the body is executed once, and the
+// invariant is re-established on every back edge (side obligation). Exit edges continue from the
+// havocked state, i.e. they know the invariant and the exit condition only.
+func (ex *Exec) execLoopInvariant(fr *frame, lp *loop, spec *LoopSpec, key string) {
+	h := lp.header
+	outside := func(p *ssa.BasicBlock) bool { return !lp.body[p] }
+	inside := func(p *ssa.BasicBlock) bool { return lp.body[p] }
+	pre := ex.incoming(fr, h, outside)
+	if pre == nil || pre.pc == TFalse {
+		return
+	}
+	var bodyOrder []*ssa.BasicBlock
+	for _, b := range fr.li.rpo {
+		if lp.body[b] {
+			bodyOrder = append(bodyOrder, b)
+		}
+	}
+	var phis []*ssa.Phi
+	for _, ins := range h.Instrs {
+		if p, ok := ins.(*ssa.Phi); ok {
+			phis = append(phis, p)
+		} else {
+			break
+		}
+	}
+	ctxFor := func(st *State) *EvalCtx {
+		vars := map[string]Value{}
+		for _, p := range phis {
+			if v, ok := st.env[p]; ok && p.Comment != "" {
+				vars[p.Comment] = v
+			}
+		}
+		// loop variables of the enclosing loops: name^, name^^, ...
+		suffix := "^"
+		for par := lp.parent; par != nil; par = par.parent {
+			for _, ins := range par.header.Instrs {
+				p, ok := ins.(*ssa.Phi)
+				if !ok {
+					break
+				}
+				if v, ok := st.env[p]; ok && p.Comment != "" {
+					vars[p.Comment+suffix] = v
+				}
+			}
+			suffix += "^"
+		}
+		return &EvalCtx{ex: ex, st: st, old: pre, fn: fr.fn, vars: vars, params: fr.params}
+	}
+	inv := func(st *State) *Term {
+		c := ctxFor(st)
+		var ts []*Term
+		for _, e := range spec.Inv {
+			ts = append(ts, c.term(e))
+		}
+		return And(ts...)
+	}
+	fnn := fnName(fr.fn)
+
+	// 1. initiation
+	s0 := pre.clone()
+	ex.evalPhis(fr, h, s0, outside)
+	ex.sideObls = append(ex.sideObls, SideObl{Name: fmt.Sprintf("%s/init", key), Hyp: pre.pc, Goal: inv(s0), Pos: ex.pos(h.Instrs[0].Pos())})
+
+	// 2. which pre-existing heap objects does the body write? (dry run, effects discarded)
+	written := ex.dryRunWrites(fr, lp, bodyOrder, pre, phis)
+
+	// 3. havoc
+	sH := pre.clone()
+	for _, p := range phis {
+		ex.objSeq++
+		sH.env[p] = ex.symValue(p.Type(), varNamer(fmt.Sprintf("%s.%s!%d", fnn, p.Comment, ex.objSeq)), false)
+	}
+	for _, o := range written {
+		sH.heap[o] = ex.havocContent(o, fnn)
+	}
+	sH.pc = And(pre.pc, inv(sH))
+	ex.note(fmt.Sprintf("loop %s cut by its invariant (%d conjuncts); %d heap objects havocked", key, len(spec.Inv), len(written)))
+	var decBefore *Term
+	if spec.Decreases != nil {
+		decBefore = ctxFor(sH).term(spec.Decreases)
+	}
+
+	// 4. one arbitrary iteration
+	for _, b := range bodyOrder {
+		for _, s := range b.Succs {
+			delete(fr.edges, [2]int{b.Index, s.Index})
+		}
+	}
+	ex.execBlock(fr, h, sH, func() {})
+	ex.execBlocks(fr, bodyOrder, lp)
+
+	// 5. preservation on every back edge
+	for _, p := range h.Preds {
+		if !inside(p) {
+			continue
+		}
+		e := fr.edges[[2]int{p.Index, h.Index}]
+		if e == nil || e.pc == TFalse {
+			continue
+		}
+		sB := e.clone()
+		only := func(q *ssa.BasicBlock) bool { return q == p }
+		ex.evalPhis(fr, h, sB, only)
+		ex.sideObls = append(ex.sideObls, SideObl{Name: fmt.Sprintf("%s/preserve@b%d", key, p.Index), Hyp: e.pc, Goal: inv(sB), Pos: ex.pos(h.Instrs[0].Pos())})
+		if decBefore != nil {
+			after := ctxFor(sB).term(spec.Decreases)
+			ex.sideObls = append(ex.sideObls, SideObl{Name: fmt.Sprintf("%s/decreases@b%d", key, p.Index), Hyp: e.pc,
+				Goal: And(Ge(decBefore, IntLit(0)), Lt(after, decBefore)), Pos: ex.pos(h.Instrs[0].Pos())})
+		}
+		delete(fr.edges, [2]int{p.Index, h.Index})
+	}
+	// exit edges stay in fr.edges for the enclosing region
 }
 
-func (ex *Exec) execLoopInvariant(fr *frame, lp *loop, spec *LoopSpec, key string) {
-	panic(unsupported("loop invariants not implemented yet: " + key))
+// dryRunWrites executes the loop once from an arbitrary state and reports the pre-existing heap
+// objects it stores to; every effect of the run on the executor is rolled back.
+func (ex *Exec) dryRunWrites(fr *frame, lp *loop, bodyOrder []*ssa.BasicBlock, pre *State, phis []*ssa.Phi) []*Obj {
+	nP, nW, nC, nS, nA := len(ex.panics), len(ex.writes), len(ex.calls), len(ex.sideObls), len(ex.assumes)
+	seqBefore := ex.objSeq
+	savedEdges := map[[2]int]*State{}
+	for k, v := range fr.edges {
+		savedEdges[k] = v
+	}
+	savedNotes := map[string]bool{}
+	for k := range ex.notes {
+		savedNotes[k] = true
+	}
+	savedBounded := ex.bounded
+	func() {
+		s := pre.clone()
+		for _, p := range phis {
+			ex.objSeq++
+			s.env[p] = ex.symValue(p.Type(), varNamer(fmt.Sprintf("dry.%s!%d", p.Comment, ex.objSeq)), false)
+		}
+		ex.execBlock(fr, lp.header, s, func() {})
+		ex.execBlocks(fr, bodyOrder, lp)
+	}()
+	seen := map[*Obj]bool{}
+	var res []*Obj
+	for _, w := range ex.writes[nW:] {
+		if w.O.id > seqBefore && w.O.fresh {
+			continue // allocated inside the iteration
+		}
+		if !seen[w.O] {
+			seen[w.O] = true
+			res = append(res, w.O)
+		}
+	}
+	ex.panics, ex.writes, ex.calls, ex.sideObls, ex.assumes = ex.panics[:nP], ex.writes[:nW], ex.calls[:nC], ex.sideObls[:nS], ex.assumes[:nA]
+	ex.notes = savedNotes
+	ex.bounded = savedBounded
+	for k := range fr.edges {
+		delete(fr.edges, k)
+	}
+	for k, v := range savedEdges {
+		fr.edges[k] = v
+	}
+	return res
+}
+
+func (ex *Exec) havocContent(o *Obj, tag string) Value {
+	ex.objSeq++
+	nm := varNamer(fmt.Sprintf("%s.havoc!%d", tag, ex.objSeq))
+	switch o.kind {
+	case OSymArr:
+		return ex.symValue(o.T, nm, true)
+	case OConcArr:
+		panic(unsupported("loop writes into a concrete array under an invariant"))
+	}
+	if o.T == nil {
+		panic(unsupported("havoc of untyped cell " + o.String()))
+	}
+	if _, ok := o.T.Underlying().(*types.Map); ok {
+		panic(unsupported("loop writes into a map under an invariant"))
+	}
+	return ex.symValue(o.T, nm, false)
 }
